@@ -411,7 +411,7 @@ func TestC05(t *testing.T) {
 		Rule: "rapid draws histories (1-25 transactions, 1-3 operations) over stores as{a1..a3} and bs{b1..b4} joined by a plain link collection and a ref-counted one: AddLinks / RemoveLinks / SetLinks (0-5 keys, unsorted, with duplicates) / AddLink / RemoveLink / Increment / Decrement / SetLinkCount(0..3) issued from either side, entity creates and deletes, links to missing entities. " +
 			"After every transaction both sides of every collection are read (GetLinks, IterateLinks, IsLinked, GetLinkCount(s), raw buckets) and compared with an adjacency/count model and with each other; AddLink/RemoveLink's boolean must equal 'state changed'; failures must leave the dump unchanged. " +
 			"Exhaustive part: every (current set, requested list) pair for SetLinks over 3 linked ids with lists up to length 3 (quick) / 4 ids, length 4 (thorough), from both sides. " +
-			"The generated histories use three stores and a child store with five collections (one on the child store, two whose remote symbols share a name), ids that are prefixes of other ids, link sets persisted together with the entity (SetLinkedIds on create / update / patch through either store) and grow-then-shrink transactions. " +
+			"The generated histories use three stores and a child store with five collections (one on the child store, two whose remote symbols share a name), ids that are prefixes of other ids, link sets persisted together with the entity (SetLinkedIds on create / update / patch through either store) and grow-then-shrink transactions. Also: a store with ref-counted collections only, one 64-byte id, one id used in several stores, an extended variant of the child store. " +
 			"Non-trivial history: a SetLinks that both adds and removes or has duplicates, a count reaching zero, or a delete of a linked entity. Distinct by hash of the history JSON.",
 		Assumptions: []string{"negative counts are not generated (no caller does; semantics unspecified)",
 			"link collections are declared over AddFkSetSymbol symbols (storage path = [symbol name]), as everywhere in the repository; an entity has child data in at most one child store of its parent"},
